@@ -6,6 +6,7 @@
 //! usage: vh <PROP> --out DIR [--seed S] [--n N] [--tier quick|thorough]
 //!           [--shards K] [--corpus DIR] [--replay FILE]
 mod util;
+mod c19;
 mod c20;
 
 use serde_json::Value;
@@ -88,6 +89,8 @@ fn replay_inputs(p: &PathBuf) -> Vec<Value> {
 }
 
 fn main() {
+    // panics of the code under test are caught and reported per case
+    std::panic::set_hook(Box::new(|_| {}));
     let args = parse_args();
     let mut rng = Rng::new(args.seed);
     let mut w = CaseWriter::new(&args.out, &args.prop);
@@ -109,6 +112,17 @@ fn main() {
             header = c20::HEADER;
             ctype = c20::CTYPE;
             runner = c20::RUNNER;
+        }
+        "C19" => {
+            if args.replay.is_none() {
+                inputs.extend(c19::generate(&mut rng, args.n, args.thorough));
+            }
+            for i in &inputs {
+                w.push(c19::run_input(i));
+            }
+            header = c19::HEADER;
+            ctype = c19::CTYPE;
+            runner = c19::RUNNER;
         }
         p => {
             eprintln!("unknown property {}", p);
